@@ -52,7 +52,8 @@ func parseRetentionPart(retentionPart string) (int, error) {
 	matches := retentionRegexp.FindStringSubmatch(retentionPart)
 	value, err := strconv.ParseInt(matches[1], 10, 32)
 	if err != nil {
-		panic(fmt.Sprintf("Regex on %v is borked, %v cannot be parsed as int", retentionPart, matches[1]))
+		// the regex only guarantees digits: the number can still be out of range
+		return 0, fmt.Errorf("%v: %v", retentionPart, err)
 	}
 	multiplier, err := unitMultiplier(matches[2])
 	return multiplier * int(value), err
@@ -80,6 +81,9 @@ func ParseRetentionDef(retentionDef string) (*Retention, error) {
 	points, err := parseRetentionPart(parts[1])
 	if err != nil {
 		return nil, fmt.Errorf("Failed to parse points: %v", err)
+	}
+	if precision == 0 {
+		return nil, fmt.Errorf("Failed to parse precision: %v: must not be 0", parts[0])
 	}
 	points /= precision
 
